@@ -254,11 +254,45 @@ def _correspond(ck, rng):
     descs = [safe(N.describe, c) for c in node_cases]
     reals = [safe(N.run_case, c) for c in node_cases]
     node_reqs = [N.model_request(c, d) if d else {"fn": "bad"} for c, d in zip(node_cases, descs)]
+    # ---- tie H (3): the feed side (to_ref_value / to_ort_value and the round trip), enumerated universe
+    from harness import lib_vpfeed as F
+
+    feed_reqs = F.cases(ck.thorough)
     try:
-        answers = ck.driver().ask_many("C07", hist_reqs + node_reqs)
+        answers = ck.driver().ask_many("C07", hist_reqs + node_reqs + feed_reqs)
     except Exception as e:  # noqa: BLE001
         ck.broken("correspondence", "C07 driver", str(e))
-        answers = [None] * (len(hist_reqs) + len(node_reqs))
+        answers = [None] * (len(hist_reqs) + len(node_reqs) + len(feed_reqs))
+    feed_answers = answers[len(hist_reqs) + len(node_reqs):]
+    answers = answers[: len(hist_reqs) + len(node_reqs)]
+    fm = fdef = funobs = 0
+    fdist: dict = {}
+    for req, m in zip(feed_reqs, feed_answers):
+        ck.count(("feed", json.dumps(req, sort_keys=True)))
+        try:
+            r, defect = F.real(req)
+        except Exception as e:  # noqa: BLE001
+            funobs += 1
+            if funobs <= 2:
+                ck.broken("correspondence", f"C07 feed conversions not observable: {type(e).__name__}: {str(e)[:150]}")
+            continue
+        back = r.get("back") or {}
+        k = (f"{req['sel']}|{'checked' if r['check'] else 'unchecked'}|"
+             f"{'back-ok' if 'ok' in back else 'back-' + str(back.get('raised', 'unfed'))}|{'in-class' if F.onnx_like(req['ty']) else 'outside'}")
+        fdist[k] = fdist.get(k, 0) + 1
+        why = F.compare(m, r)
+        if why:
+            fm += 1
+            if fm <= 3:
+                ck.broken("correspondence", "C07 feed (to_ref_value / to_ort_value round trip) model-vs-implementation",
+                          f"req={json.dumps(req)[:400]}: {why}")
+        if defect:
+            fdef += 1
+            if fdef <= 3:
+                ck.broken("correspondence", "C07 feed round trip loses a kept value (real code, model-free)",
+                          f"req={json.dumps(req)[:400]}: {defect}")
+    ck.cov.update({"feed_cases": len(feed_reqs), "feed_mismatches": fm, "feed_roundtrip_defects": fdef,
+                   "feed_input_distribution": dict(sorted(fdist.items()))})
     hm = nvals = 0
     for req, real, meta, m in zip(hist_reqs, hist_real, hist_meta, answers):
         ck.count(("hist", json.dumps(meta, sort_keys=True)))
